@@ -1569,7 +1569,9 @@ class Model(Object):
         new_cons = [
             interface.Constraint.clone(c, model=new_model.solver)
             for c in right.constraints
-            if c.name not in new_model.constraints
+            # only custom constraints: the rows of right's metabolites belong to
+            # metabolites, which join the model with their reactions
+            if c.name not in new_model.constraints and c.name not in right.metabolites
         ]
         new_model.add_cons_vars(new_cons, sloppy=True)
         new_model.objective = dict(
